@@ -62,10 +62,28 @@ class FileLock:
         self._locked = False
         self._used_excl_fallback = False
         self._owner_thread: Optional[int] = None
+        self._owner_pid: Optional[int] = None
 
     def is_held(self) -> bool:
-        """Whether this instance currently holds the lock."""
-        return self._locked
+        """Whether this instance currently holds the lock (in THIS process: a
+        hold inherited over fork() belongs to the parent)."""
+        return self._locked and self._owner_pid == os.getpid()
+
+    def _drop_inherited_hold(self) -> None:
+        """Forget a hold that was taken by the process we were forked from.
+
+        flock() belongs to the open file description, which fork() shares:
+        LOCK_UN here would release the PARENT's lock. Closing our duplicate of
+        the descriptor does not, so that is all a child may do with it.
+        """
+        fd = self._lock_fd
+        self._lock_fd = None
+        self._locked = False
+        if fd is not None:
+            try:
+                os.close(fd)
+            except OSError:
+                pass
 
     def acquire(self, blocking: bool = True) -> bool:
         """Acquire the lock.
@@ -86,6 +104,8 @@ class FileLock:
         # different owner - the calling thread would dead-lock against its own
         # stale hold until the timeout. Only the thread that took the hold may
         # drop it: another thread's hold is a live critical section.
+        if self._lock_fd is not None and self._owner_pid != os.getpid():
+            self._drop_inherited_hold()
         if self._lock_fd is not None and self._owner_thread == threading.get_ident():
             self.release()
 
@@ -128,6 +148,7 @@ class FileLock:
                 self._locked = True
                 self._used_excl_fallback = False
                 self._owner_thread = threading.get_ident()
+                self._owner_pid = os.getpid()
                 return True
             except (IOError, OSError):
                 os.close(fd)
@@ -158,6 +179,7 @@ class FileLock:
             self._locked = True
             self._used_excl_fallback = True
             self._owner_thread = threading.get_ident()
+            self._owner_pid = os.getpid()
             return True
         except (IOError, OSError) as e:
             if e.errno != errno.EEXIST:
@@ -190,6 +212,9 @@ class FileLock:
         fd = self._lock_fd
         if fd is None:
             self._locked = False
+            return
+        if self._owner_pid != os.getpid():
+            self._drop_inherited_hold()
             return
 
         try:
